@@ -46,6 +46,8 @@ impl Chooser {
         self.cost.push(cost);
         c as usize
     }
+    /// Pre-allocates the recording vectors so that no (re)allocation happens while choices are taken.
+    pub fn reserve(&mut self, n: usize) { self.taken.reserve(n); self.arity.reserve(n); self.cost.reserve(n); }
     /// Costly choice point: alternatives 1..n are deviations.
     pub fn choose(&mut self, n: usize) -> usize { self.point(n, 1) }
     /// Free choice point: all alternatives are enumerated regardless of the deviation bound.
@@ -141,6 +143,9 @@ struct Local {
 thread_local! {
     static PANIC_INFO: std::cell::RefCell<Option<String>> = std::cell::RefCell::new(None);
 }
+
+pub fn clear_panic_info() { PANIC_INFO.with(|p| *p.borrow_mut() = None); }
+pub fn take_panic_info() -> Option<String> { PANIC_INFO.with(|p| p.borrow_mut().take()) }
 
 pub fn install_panic_hook() {
     std::panic::set_hook(Box::new(|info| {
